@@ -262,10 +262,13 @@ the Irc object in between, so the object that talks on the new socket is a fresh
 connect messages queued; `_read` then drops the rest of the old chunk (`feedLines_stops`) and
 `_sendIfMsgs` writes the queue to the new socket (`flush_wire`). -/
 
+theorem visible_connectTo (cfg : Cfg) (srv : Server) (s : St) : visible (connectTo cfg srv s) = visible s := by
+  unfold connectTo; simp only; split <;> rfl
+
 theorem visible_drvConnect (cfg : Cfg) (srv : Option Server) (s : St) : visible (drvConnect cfg srv s) = visible s := by
   unfold drvConnect
   cases srv with
-  | some x => rfl
+  | some x => exact visible_connectTo cfg x s
   | none =>
     simp only
     cases h : getNextServer cfg s with
@@ -273,6 +276,7 @@ theorem visible_drvConnect (cfg : Cfg) (srv : Option Server) (s : St) : visible 
     | some p =>
       obtain ⟨x, s'⟩ := p
       simp only
+      rw [visible_connectTo]
       show visible s' = visible s
       unfold getNextServer at h
       split at h
